@@ -1750,8 +1750,8 @@ def producer_frame_line(env, cid, ap, fb, calls, plan, blocks):
         else:
             dec += "0"
         parts.append("%d/%d/%d/%s/%s/%d" % (nb, cap, srcsz, seqs_str(buf), stored, lastll))
-    line = "PF %s~f %d %d %d 0 %d %d %d %d 1 %d 1.4.8 %s %s" % (
-        cid, ap["wl"], ap["mm"], ap["val"], ap["maxnb"], 1 if env.fixed else 0, 1 if ap["ers"] == 1 else 0, fb,
+    line = "PF %s~f %d %d %d %d %d %d %d %d 1 %d 1.4.8 %s %s" % (
+        cid, ap["wl"], ap["mm"], ap["val"], ap.get("ds", 0), ap["maxnb"], 1 if env.fixed else 0, 1 if ap["ers"] == 1 else 0, fb,
         1 if getattr(env, "prodpos_fixed", False) else 0, dec or "-", "|".join(parts) if parts else "-")
     return line, hists
 
@@ -1802,10 +1802,14 @@ def producer_splitter_adversarial(env, rng):
     [1 KiB blocks whose two halves both end up raw: 6 bytes of expansion where ZSTD_compressBound pays 4] and fix: 65eb70d [39000
     sequences whose halves differ at every level of the recursion: 197 split points for a table of 196]).  Destination of exactly
     ZSTD_compressBound(n) bytes: the call must succeed, decode to the source (dictionary of 2^26 bytes), use at most one wire block per
-    full KiB of a source block, and the split table derived again for the block must stay inside ZSTD_MAX_NB_BLOCK_SPLITS entries."""
+    full KiB of a source block, and the split table derived again for the block must stay inside ZSTD_MAX_NB_BLOCK_SPLITS entries.
+    depth 10: a raw partition followed by a partition that codes offsets of the raw one as repeat codes (ZSTD_seqStore_resolveOffCodes)."""
     fam = [(1024, 128, 1, 24, 25, 100, 1, 0), (1100, 60, 1, 24, 25, 100, 1, 0), (2048, 32, 2, 24, 25, 100, 1, 0), (4096, 24, 3, 23, 25, 100, 1, 0),
            (131072, 1, 9, 2, 25, 92, 1, 0), (131072, 1, 9, 2, 25, 100, 1, 0), (131072, 1, 8, 2, 25, 89, 1, 0), (131072, 2, 8, 22, 25, 100, 1, 0),
-           (1024, 64, 1, 24, 25, 100, 1, 1340), (4096, 16, 3, 20, 25, 100, 0, 1340), (1024, 64, 1, 24, 25, 100, 2, 0)]
+           (1024, 64, 1, 24, 25, 100, 1, 1340), (4096, 16, 3, 20, 25, 100, 0, 1340), (1024, 64, 1, 24, 25, 100, 2, 0),
+           # depth 10 = repeat-offset reconciliation: first half of every block incompressible (raw partition, the decoder's history stays),
+           # second half made of long matches at the last three offsets of the first half (repeat codes for the copier)
+           (8192, 8, 10, 24, 25, 100, 1, 0), (16384, 4, 10, 22, 25, 100, 1, 0), (131072, 1, 10, 23, 25, 100, 1, 0), (8192, 6, 10, 24, 25, 100, 1, 2000)]
     for _ in range(4 if env.ctx.quick else 40):
         B = rng.choice([1024, 1025, 1279, 1535, 1536, 2047, 3000, 4096, 8192, 32768, 131072])
         depth = rng.randint(1, 8) if B >= 4096 else rng.randint(1, 2)
@@ -1954,9 +1958,14 @@ def run_producer(env, rng, n):
             p["extRepSearch"] = ers
         if rng.random() < 0.3:
             p["checksum"] = 1
-        cases.append(dict(id="p%d" % i, x=x, params=p, kind=kind, mbs=mbs, fb=fb))
+        # (round 3) raw-content dictionaries: the producer's offsets may reach into the dictionary (while the position is inside the
+        # first window); the model is given the dictionary size the copier sees
+        dm = rng.choice(["-", "-", "-", "load", "cdict"]) if size > 8 else "-"
+        d = gen_dict(rng, x, rng.choice([150, 700, 2500])) if dm != "-" else b""
+        cases.append(dict(id="p%d" % i, x=x, params=p, kind=kind, mbs=mbs, fb=fb, dictmode=dm, dict=d))
     # applied parameters (block size) first
-    out, _ = env.impl(["A %s %s - - %d" % (c["id"], codec.params_str(c["params"]), len(c["x"])) for c in cases])
+    out, _ = env.impl(["A %s %s %s %s %d" % (c["id"], codec.params_str(c["params"]), c["dictmode"], codec.hx(c["dict"]) if c["dictmode"] != "-" else "-", len(c["x"]))
+                       for c in cases])
     lines = []
     for c in cases:
         r = out.get(c["id"], "")
@@ -1967,7 +1976,7 @@ def run_producer(env, rng, n):
         x = c["x"]
         W = 1 << ap["wl"]
         bs = ap["bs"]
-        pr = Parser(rng, x, b"", W, 3)
+        pr = Parser(rng, x, c["dict"], W, 3)
         resp, plan = [], []
         pos = 0
         failed = False
@@ -2034,7 +2043,10 @@ def run_producer(env, rng, n):
                 plan.append(("seqs", seqs, None, False))
             pos += sz
         c["plan"] = plan
-        lines.append("P %s %s %s %s 0" % (c["id"], codec.params_str(c["params"]), ";".join(resp) if resp else "-", codec.hx(x)))
+        if c["dictmode"] != "-":
+            lines.append("R %s %s %s %s %s %s 0" % (c["id"], codec.params_str(c["params"]), c["dictmode"], codec.hx(c["dict"]), ";".join(resp) if resp else "-", codec.hx(x)))
+        else:
+            lines.append("P %s %s %s %s 0" % (c["id"], codec.params_str(c["params"]), ";".join(resp) if resp else "-", codec.hx(x)))
     out, crashes = env.impl(lines)
     crashed = {i: (rc, err) for i, rc, err in crashes}
     rcases = []
@@ -2050,7 +2062,7 @@ def run_producer(env, rng, n):
         t = r.split(" ")
         c["res"] = t
         if t and t[0] == "OK":
-            rcases.append((c["id"], "seqs", None, codec.unhx(t[1])))
+            rcases.append((c["id"], "seqs,rawdict" if c["dictmode"] != "-" else "seqs", c["dict"] if c["dictmode"] != "-" else None, codec.unhx(t[1])))
     mres = env.codec().model(rcases) if rcases else {}
     # model: per producer call
     mlines = []
@@ -2099,12 +2111,12 @@ def run_producer(env, rng, n):
             nbs = str(nb) if nb < (1 << 62) else str((1 << 62) - 1)      # any value above the capacity is an error code
             if nb >= (1 << 62):
                 nbs = str(cap + 1)
-            mlines.append("P %s.%d %d %d %d 0 %d %d %d %d %s %d %d %d.%d.%d %s" % (
-                c["id"], k, ap["wl"], ap["mm"], ap["val"], ap["maxnb"], 1 if env.fixed else 0, 1 if ap["ers"] == 1 else 0, c["fb"],
+            mlines.append("P %s.%d %d %d %d %d %d %d %d %d %s %d %d %d.%d.%d %s" % (
+                c["id"], k, ap["wl"], ap["mm"], ap["val"], ap.get("ds", 0), ap["maxnb"], 1 if env.fixed else 0, 1 if ap["ers"] == 1 else 0, c["fb"],
                 nbs, cap, srcsz, rep[0], rep[1], rep[2], seqs_str(buf)))
             # the same block at its position in the frame (every block before it is a full block: splitter disabled, one-shot call)
-            mlines.append("PA %s.%d~a %d %d %d 0 %d %d %d %d %s %d %d %d.%d.%d %d %s" % (
-                c["id"], k, ap["wl"], ap["mm"], ap["val"], ap["maxnb"], 1 if env.fixed else 0, 1 if ap["ers"] == 1 else 0, c["fb"],
+            mlines.append("PA %s.%d~a %d %d %d %d %d %d %d %d %s %d %d %d.%d.%d %d %s" % (
+                c["id"], k, ap["wl"], ap["mm"], ap["val"], ap.get("ds", 0), ap["maxnb"], 1 if env.fixed else 0, 1 if ap["ers"] == 1 else 0, c["fb"],
                 nbs, cap, srcsz, rep[0], rep[1], rep[2], sum(q[0] for q in calls[:k]), seqs_str(buf)))
     mout = env.model(mlines)
     for c in cases:
@@ -2134,7 +2146,7 @@ def judge_producer(env, c, mout, rres):
     x = c["x"]
     ap = c["ap"]
     calls = c["calls"]
-    rp = dict(kind="producer", params=c["params"], input_hex=x.hex()[:200000], plan=[(k, seqs_str(s)[:20000], r) for k, s, r, _ in c["plan"]], result=" ".join(t)[-300:], calls=calls)
+    rp = dict(kind="producer", params=c["params"], dictmode=c.get("dictmode", "-"), dict_hex=c.get("dict", b"").hex(), input_hex=x.hex()[:200000], plan=[(k, seqs_str(s)[:20000], r) for k, s, r, _ in c["plan"]], result=" ".join(t)[-300:], calls=calls)
     # capacity handed to the producer must be ZSTD_sequenceBound(block size)  (T-tie of the bound used by post-processing)
     verdicts = []
     expect_fail = None
@@ -2157,7 +2169,7 @@ def judge_producer(env, c, mout, rres):
         if v[0] == "OOB":
             expect_fail = (k, v)
             break
-    sig = ("producer", tuple(sorted(set(verdicts))), c["fb"], ap["val"], ap["ers"])
+    sig = ("producer", tuple(sorted(set(verdicts))), c["fb"], ap["val"], ap["ers"], c.get("dictmode", "-") != "-")
     if expect_fail:
         k, v = expect_fail
         if v[0] == "OOB":
